@@ -342,26 +342,28 @@ Qed.
 Lemma wf_config_spec c : wf_config c = true ->
   (0 <= cc_threshold c < 4294967296)%Z /\ keys_sorted (map fst (cc_public c)) = true /\
   ids_small_P (map fst (cc_public c)) /\ Forall pub_ok (map snd (cc_public c)) /\
-  match cc_rid c with Some rid => len rid < 256 ^ N.of_nat 8 | None => True end.
+  match cc_rid c with Some rid => len rid < 256 ^ N.of_nat 8 | None => True end /\
+  len (cc_chainkey c) < 256 ^ N.of_nat 8.
 Proof.
-  unfold wf_config. rewrite !andb_true_iff. intros [[[[[T0 T1] S] I] F] R].
+  unfold wf_config. rewrite !andb_true_iff. intros [[[[[[T0 T1] S] I] F] R] K].
   apply Z.leb_le in T0. apply Z.ltb_lt in T1. repeat split; try assumption; try (now apply ids_small_spec).
   - apply Forall_map. now apply forallb_Forall in F.
   - destruct (cc_rid c); [now apply N.ltb_lt in R | exact Logic.I].
+  - now apply N.ltb_lt in K.
 Qed.
 
 (* Injectivity of config.Config.WriteTo after the repair -- UNCONDITIONAL in the sizes: no common width of the Paillier
-   moduli, no Pedersen range, RID of any length.  Hypotheses left: threshold in uint32 range; keys strictly sorted (the
+   moduli, no Pedersen range, RID and chain key of any length.  Hypotheses left: threshold in uint32 range; keys strictly sorted (the
    list is the canonical form of the map); point coordinates in range; lengths below 2^64. *)
 Theorem config_data_inj c1 c2 d :
   wf_config c1 = true -> wf_config c2 = true ->
   config_data c1 = Some d -> config_data c2 = Some d -> c1 = c2.
 Proof.
   intros W1 W2 D1 D2.
-  destruct (wf_config_spec _ W1) as ([T1a T1b] & S1 & I1 & G1 & R1).
-  destruct (wf_config_spec _ W2) as ([T2a T2b] & S2 & I2 & G2 & R2).
-  destruct c1 as [t1 [rid1|] p1], c2 as [t2 [rid2|] p2]; unfold config_data in D1, D2;
-    cbn [cc_threshold cc_rid cc_public] in *; try discriminate.
+  destruct (wf_config_spec _ W1) as ([T1a T1b] & S1 & I1 & G1 & R1 & K1).
+  destruct (wf_config_spec _ W2) as ([T2a T2b] & S2 & I2 & G2 & R2 & K2).
+  destruct c1 as [t1 [rid1|] ck1 p1], c2 as [t2 [rid2|] ck2 p2]; unfold config_data in D1, D2;
+    cbn [cc_threshold cc_rid cc_chainkey cc_public] in *; try discriminate.
   rewrite (sort_entries_sorted _ S1) in D1. rewrite (sort_entries_sorted _ S2) in D2.
   destruct (publics_data p1) as [b1|] eqn:Q1; [|discriminate].
   destruct (publics_data p2) as [b2|] eqn:Q2; [|discriminate].
@@ -374,6 +376,38 @@ Proof.
   apply app_eq_length in E as [El E]; [| unfold be64; now rewrite !be_bytes_length].
   apply be_bytes_inj in El; try assumption. apply len_lt_inj in El.
   apply app_eq_length in E as [Er E]; [| assumption]. subst rid2.
+  apply app_eq_length in E as [Ec E]; [| unfold be64; now rewrite !be_bytes_length].
+  apply be_bytes_inj in Ec; try assumption. apply len_lt_inj in Ec.
+  apply app_eq_length in E as [Eck E]; [| assumption]. subst ck2.
+  assert (L : length p1 = length p2).
+  { rewrite <- (map_length fst p1), <- (map_length fst p2). now rewrite Ek. }
+  rewrite <- (app_nil_r b1), <- (app_nil_r b2) in E.
+  destruct (publics_data_prefix_free p1 p2 b1 b2 [] [] G1 G2 L Q1 Q2 E) as [Es _].
+  f_equal. now apply split_eq.
+Qed.
+
+(* the encoder between the two repairs determined everything but the chain key *)
+Theorem config_data_v1_inj c1 c2 d :
+  wf_config c1 = true -> wf_config c2 = true -> cc_chainkey c1 = cc_chainkey c2 ->
+  config_data_v1 c1 = Some d -> config_data_v1 c2 = Some d -> c1 = c2.
+Proof.
+  intros W1 W2 CK D1 D2.
+  destruct (wf_config_spec _ W1) as ([T1a T1b] & S1 & I1 & G1 & R1 & _).
+  destruct (wf_config_spec _ W2) as ([T2a T2b] & S2 & I2 & G2 & R2 & _).
+  destruct c1 as [t1 [rid1|] ck1 p1], c2 as [t2 [rid2|] ck2 p2]; unfold config_data_v1 in D1, D2;
+    cbn [cc_threshold cc_rid cc_chainkey cc_public] in *; try discriminate.
+  rewrite (sort_entries_sorted _ S1) in D1. rewrite (sort_entries_sorted _ S2) in D2.
+  destruct (publics_data p1) as [b1|] eqn:Q1; [|discriminate].
+  destruct (publics_data p2) as [b2|] eqn:Q2; [|discriminate].
+  pose proof (Some_inj _ _ (eq_trans D1 (eq_sym D2))) as E. clear D1 D2 d.
+  apply app_eq_length in E as [Et E]; [| unfold be32; now rewrite !be_bytes_length].
+  rewrite !Z.mod_small in Et by lia.
+  apply be_bytes_inj in Et; [| change (256 ^ N.of_nat 4) with 4294967296; lia ..].
+  apply Z2N.inj in Et; try lia. subst t2.
+  apply idslice_data_prefix_free in E as [Ek E]; try assumption.
+  apply app_eq_length in E as [El E]; [| unfold be64; now rewrite !be_bytes_length].
+  apply be_bytes_inj in El; try assumption. apply len_lt_inj in El.
+  apply app_eq_length in E as [Er E]; [| assumption]. subst rid2 ck2.
   assert (L : length p1 = length p2).
   { rewrite <- (map_length fst p1), <- (map_length fst p2). now rewrite Ek. }
   rewrite <- (app_nil_r b1), <- (app_nil_r b2) in E.
@@ -390,7 +424,7 @@ Lemma wf_config_w_spec w c : wf_config_w w c = true ->
   wf_config c = true /\ Forall (pub_w w) (map snd (cc_public c)).
 Proof.
   unfold wf_config_w. rewrite andb_true_iff. intros [W F]. split; [assumption|].
-  destruct (wf_config_spec _ W) as (_ & _ & _ & Fw & _). unfold pub_ok in Fw.
+  destruct (wf_config_spec _ W) as (_ & _ & _ & Fw & _ & _). unfold pub_ok in Fw.
   apply Forall_map. apply forallb_Forall in F. rewrite Forall_map in Fw.
   apply Forall_forall. intros e He. pose proof (proj1 (Forall_forall _ _) F e He) as H. cbn beta in H.
   pose proof (proj1 (Forall_forall _ _) Fw e He) as Hw. cbn beta in Hw.
@@ -398,15 +432,15 @@ Proof.
 Qed.
 
 Theorem config_data_v0_inj w c1 c2 d :
-  wf_config_w w c1 = true -> wf_config_w w c2 = true ->
+  wf_config_w w c1 = true -> wf_config_w w c2 = true -> cc_chainkey c1 = cc_chainkey c2 ->
   config_data_v0 c1 = Some d -> config_data_v0 c2 = Some d -> c1 = c2.
 Proof.
-  intros W1 W2 D1 D2.
+  intros W1 W2 CK D1 D2.
   destruct (wf_config_w_spec _ _ W1) as (V1 & F1). destruct (wf_config_w_spec _ _ W2) as (V2 & F2).
-  destruct (wf_config_spec _ V1) as ([T1a T1b] & S1 & I1 & _ & _).
-  destruct (wf_config_spec _ V2) as ([T2a T2b] & S2 & I2 & _ & _).
-  destruct c1 as [t1 [rid1|] p1], c2 as [t2 [rid2|] p2]; unfold config_data_v0 in D1, D2;
-    cbn [cc_threshold cc_rid cc_public] in *; try discriminate.
+  destruct (wf_config_spec _ V1) as ([T1a T1b] & S1 & I1 & _ & _ & _).
+  destruct (wf_config_spec _ V2) as ([T2a T2b] & S2 & I2 & _ & _ & _).
+  destruct c1 as [t1 [rid1|] ck1 p1], c2 as [t2 [rid2|] ck2 p2]; unfold config_data_v0 in D1, D2;
+    cbn [cc_threshold cc_rid cc_chainkey cc_public] in *; try discriminate.
   rewrite (sort_entries_sorted _ S1) in D1. rewrite (sort_entries_sorted _ S2) in D2.
   pose proof (Some_inj _ _ (eq_trans D1 (eq_sym D2))) as E. clear D1 D2 d.
   apply app_eq_length in E as [Et E]; [| unfold be32; now rewrite !be_bytes_length].
@@ -423,7 +457,7 @@ Proof.
   2:{ rewrite (flat_map_length_fixed _ _ _ _ Hk F1), (flat_map_length_fixed _ _ _ _ Hk F2). now rewrite L. }
   apply (flat_map_fixed_inj public_data_v0 (pub_w w) _ Hk) in Ep; try assumption.
   2:{ intros a b (Wa & Ra & _) (Wb & Rb & _). now apply public_data_v0_inj. }
-  subst rid2. f_equal. now apply split_eq.
+  subst rid2 ck2. f_equal. now apply split_eq.
 Qed.
 
 (* ------------------------------------------------------------------ *)
@@ -738,13 +772,13 @@ Definition wit_encG : N := 2 * 256 ^ 32 + wit_gx.   (* the 33 bytes 02 || x(G) r
 
 (* A: party "a" has a 1-byte modulus (7), party "b" a 34-byte modulus whose first 33 bytes are the encoding of G *)
 Definition wit_config_a : cmp_config :=
-  mkCmpConfig 1 (Some wit_rid)
+  mkCmpConfig 1 (Some wit_rid) []
     [ ([97], mkCmpPublic (wit_gx, false) (wit_g2x, false) 7 (wit_top + 11) (wit_top + 12) (wit_top + 13));
       ([98], mkCmpPublic (wit_gx, false) (wit_g2x, false) (wit_encG * 256 + 9) 14 15 16) ].
 (* B: same threshold, parties and RID; "a" has a 34-byte modulus, "b" a 1-byte modulus; every field boundary after
    the first modulus is 33 bytes further to the right *)
 Definition wit_config_b : cmp_config :=
-  mkCmpConfig 1 (Some wit_rid)
+  mkCmpConfig 1 (Some wit_rid) []
     [ ([97], mkCmpPublic (wit_gx, false) (wit_g2x, false) (7 * wit_sh + 1)
                          (11 * wit_sh + 1) (12 * wit_sh + 1) (13 * wit_sh + wit_encG));
       ([98], mkCmpPublic (wit_g2x, false) (wit_gx, false) 9 14 15 16) ].
@@ -786,10 +820,10 @@ Qed.
 
 (* with a free RID length a single party was enough: one byte string, two readings *)
 Definition wit1_config_a : cmp_config :=
-  mkCmpConfig 0 (Some (repeat 7 32))
+  mkCmpConfig 0 (Some (repeat 7 32)) []
     [ ([97], mkCmpPublic (wit_gx, false) (wit_g2x, false) (wit_encG * 256 + 9) 14 15 16) ].
 Definition wit1_config_b : cmp_config :=
-  mkCmpConfig 0 (Some (repeat 7 32 ++ point_bytes (wit_gx, false)))
+  mkCmpConfig 0 (Some (repeat 7 32 ++ point_bytes (wit_gx, false))) []
     [ ([97], mkCmpPublic (wit_g2x, false) (wit_gx, false) 9 14 15 16) ].
 
 Theorem config_v0_one_party_refuted :
@@ -825,7 +859,7 @@ Qed.
 Definition ex_public (n : N) : cmp_public :=
   mkCmpPublic (wit_gx, false) (wit_g2x, false) (2 ^ 2047 + n) 14 15 16.
 Definition ex_config : cmp_config :=
-  mkCmpConfig 1 (Some wit_rid) [ ([97], ex_public 1); ([98], ex_public 3) ].
+  mkCmpConfig 1 (Some wit_rid) (repeat 9 32) [ ([97], ex_public 1); ([98], ex_public 3) ].
 Definition ex_values : list hval :=
   [ HExponent false (Some [(wit_gx, false); (wit_g2x, false)]); HExponent true None;
     HElGamal (wit_gx, false) (wit_g2x, false); HSchCommitment (wit_gx, false); HMessageHash (Some [1; 2]);
@@ -833,3 +867,33 @@ Definition ex_values : list hval :=
 Lemma ex_values_wf : forallb wf_hval ex_values = true /\ forallb no_alias ex_values = true /\
                      snd (write_any init_state ex_values) = true.
 Proof. repeat split; vm_compute; reflexivity. Qed.
+
+(* ------------------------------------------------------------------ *)
+(* 9. regression: Config.WriteTo before the chain key was written (enc_hval_v1) *)
+
+Definition item_ok_v1 (v : hval) : bool :=
+  match enc_hval_v1 v with Some i => wf_item i | None => false end.
+
+(* two configs that differ ONLY in their chain key (nil/empty against 32 bytes) *)
+Definition wit_ck_config (ck : bytes) : cmp_config :=
+  mkCmpConfig 1 (Some wit_rid) ck [ ([97], ex_public 1); ([98], ex_public 3) ].
+
+Theorem config_v1_chainkey_refuted :
+  exists c1 c2 : cmp_config,
+    c1 <> c2 /\ wf_config c1 = true /\ wf_config c2 = true /\
+    cc_threshold c1 = cc_threshold c2 /\ cc_rid c1 = cc_rid c2 /\ cc_public c1 = cc_public c2 /\
+    cc_chainkey c1 <> cc_chainkey c2 /\
+    item_ok_v1 (HCmpConfig (Some c1)) = true /\
+    enc_hval_v1 (HCmpConfig (Some c1)) = enc_hval_v1 (HCmpConfig (Some c2)) /\
+    enc_hval (HCmpConfig (Some c1)) <> None /\
+    enc_hval (HCmpConfig (Some c1)) <> enc_hval (HCmpConfig (Some c2)).
+Proof.
+  exists (wit_ck_config []), (wit_ck_config (repeat 9 32)).
+  split; [intro E; apply (f_equal cc_chainkey) in E; discriminate E|].
+  repeat split; try (vm_compute; reflexivity); try discriminate; vm_compute; discriminate.
+Qed.
+
+(* the pre-chain-key encoder never looks at the chain key, for any config *)
+Lemma config_data_v1_ignores_chainkey t rid ck ck' pubs :
+  config_data_v1 (mkCmpConfig t rid ck pubs) = config_data_v1 (mkCmpConfig t rid ck' pubs).
+Proof. reflexivity. Qed.
